@@ -62,6 +62,7 @@ def py_env(env):
 INT_LITS = [0, 1, 2, 3, 5, 7, 10, 100, 255, 256, 1000]
 FLOAT_LITS = ["0.5", "1.5", "2.5", "0.25", "3.0", "100.0", "7.75", "0.0", "2.0"]
 STR_LITS = ['"a"', '"ab"', '""', '"12"', '"x y"', '"-3"', '"q\\"r"']
+NUM_LITS = ['"12"', '"13"', '"-3"', '" 7 "', '"0"', '"+41"', '"2147483647"']
 CMP = ["==", "!=", "<", "<=", ">", ">="]
 
 
@@ -95,7 +96,7 @@ class Gen:
         if d <= 0 or r.random() < 0.15:
             return self.atom("int")
         if r.random() < self.risky:
-            k = r.choice(["pow", "and-int", "shift-big", "minmax3", "int-strlit-cond"])
+            k = r.choice(["pow", "and-int", "shift-big", "minmax3"])
             self.note("risky:" + k)
             if k == "pow":
                 return f"({self.int_(d - 1)} ** 2)"
@@ -103,11 +104,9 @@ class Gen:
                 return f"({self.int_(d - 1)} {r.choice(['and', 'or'])} {self.int_(d - 1)})"
             if k == "shift-big":
                 return f"({self.int_(d - 1)} >> 40)"
-            if k == "int-strlit-cond":
-                return f'int("12" if {self.bool_(d - 1)} else "13")'
             return f"{r.choice(['min', 'max'])}({self.int_(d - 1)}, {self.int_(d - 1)}, {self.int_(d - 1)})"
         k = r.choice(["add", "sub", "mul", "floordiv", "mod", "bit", "shift", "neg", "pos", "abs", "minmax", "int-float",
-                      "int-bool", "int-str", "len", "ifexp", "bool-arith", "add", "sub", "floordiv", "mod", "minmax"])
+                      "int-bool", "int-str", "len", "ifexp", "bool-arith", "add", "sub", "floordiv", "mod", "minmax", "int-strlit-cond"])
         self.note(k)
         if k in ("add", "sub"):
             return f"({self.int_(d - 1)} {'+' if k == 'add' else '-'} {self.int_(d - 1)})"
@@ -133,6 +132,8 @@ class Gen:
             return f"int({self.float_(d - 1)})"
         if k == "int-bool":
             return f"int({self.bool_(d - 1)})"
+        if k == "int-strlit-cond":   # int() of a choice between literals: const char* in C++ (repaired: F-C01-int-strlit-cond)
+            return f"int({self.charp(d - 1, NUM_LITS)})"
         if k == "int-str":
             return r.choice(["int(s)", 'int("12")', 'int(" -7 ")', f"int(str({self.int_(d - 1)}))", 'int(s + "0")'])
         if k == "len":
@@ -244,18 +245,44 @@ class Gen:
     def str_(self, d):
         r = self.rng
         if r.random() < self.risky and d > 0:
-            k = r.choice(["str-bool", "str-float", "fstr-bool", "lit-concat"])
+            k = r.choice(["str-bool", "str-float", "fstr-bool"])
             self.note("risky:" + k)
             if k == "str-bool":
                 return f"str({self.bool_(d - 1)})"
             if k == "str-float":
                 return f"str({self.float_(d - 1)})"
-            if k == "fstr-bool":
-                return 'f"{' + self.bool_(d - 1).replace('"', "'") + '}"'
-            return '("a" + "b")'
+            return 'f"{' + self.bool_(d - 1).replace('"', "'") + '}"'
         if r.random() < 0.3:
             return r.choice(STR_LITS)
+        if d > 0 and r.random() < 0.2:
+            return self.litconcat(d)
         return self.strobj(d)
+
+    def charp(self, d, lits=None):
+        """an expression the emitter prints as const char*: a literal, an f-string without fields, a choice between such"""
+        r = self.rng
+        lits = lits or STR_LITS
+        if d <= 0 or r.random() < 0.45:
+            q = r.choice(lits)
+            return ("f" + q) if r.random() < 0.15 and "{" not in q and "\\" not in q else q
+        return f"({self.charp(d - 1, lits)} if {self.bool_(d - 1)} else {self.charp(d - 1, lits)})"
+
+    def litconcat(self, d):
+        """`+` of two const char* expressions (repaired: F-C01-strlit-concat / F-C06-literal-concat), alone, chained to the
+        left and to the right, and next to a String object"""
+        r = self.rng
+        self.note("s:lit-concat")
+        a, b = self.charp(d - 1), self.charp(d - 1)
+        form = r.choice([0, 0, 1, 2, 3, 4])
+        if form == 0:
+            return f"({a} + {b})"
+        if form == 1:
+            return f"(({a} + {b}) + {self.charp(d - 1)})"
+        if form == 2:
+            return f"({a} + ({b} + {self.charp(d - 1)}))"
+        if form == 3:
+            return f"(({a} + {b}) + {self.strobj(d - 1)})"
+        return f"({self.strobj(d - 1)} + ({a} + {b}))"
 
     def expr(self, d):
         ty = self.rng.choice(["int", "int", "float", "bool", "str"])
@@ -603,10 +630,10 @@ def run_unit(ctx: C.Ctx):
     cov.update({
         "evaluations": n_eval,
         "distinct_nontrivial": len({s for s in text_srcs if any(c in s for c in "+-*/%<>=&|^( ")}) + len({(it[0], it[2]) for mm in meta for it in mm.values()}),
-        "rule": "text tie: seeded pyast_wire.gen_expr expressions (all node kinds, mostly ill-typed mixes, depth 1-4) + typed expressions + a fixed list of special forms, non-trivial = contains an operator or call; behaviour/oracle: typed generator (ints a b, float f=a/4.0, bool t=a>0, str s=str(b), depth 1-4, ~8% constructs outside the guard; // and % with divisors of either sign, bool and float operands in both positions), a fixed // / % corpus (DIV_CORPUS x DIV_ENVS: every sign combination, exact and inexact division, int/bool/float operands; all of it must be inside expr_guard and is always run), environments a in A_VALUES x b in B_VALUES fed through analog_read, each (expression, environment) pair distinct; only expressions with a Python value and a model C value are put into sketches (40 per sketch, marker lines); the oracle (c) uses only those inside the extracted expr_guard whose float values are small dyadics",
+        "rule": "text tie: seeded pyast_wire.gen_expr expressions (all node kinds, mostly ill-typed mixes, depth 1-4) + typed expressions + a fixed list of special forms, non-trivial = contains an operator or call; behaviour/oracle: typed generator (ints a b, float f=a/4.0, bool t=a>0, str s=str(b), depth 1-4, ~8% constructs outside the guard; `+` of two const char* expressions (literal, f-string without fields, choice between such) alone, chained and next to String objects, int() of a choice between numeric literals; // and % with divisors of either sign, bool and float operands in both positions), a fixed // / % corpus (DIV_CORPUS x DIV_ENVS: every sign combination, exact and inexact division, int/bool/float operands; all of it must be inside expr_guard and is always run), environments a in A_VALUES x b in B_VALUES fed through analog_read, each (expression, environment) pair distinct; only expressions with a Python value and a model C value are put into sketches (40 per sketch, marker lines); the oracle (c) uses only those inside the extracted expr_guard whose float values are small dyadics",
         "samples": [text_srcs[0], text_srcs[len(loose)], typed[0][1], typed[1][1]] + [it[0] for it in runnable[:3]],
         "distribution": {**dist, "typed_kinds": dict(sorted(gen.kinds.items()))},
-        "guard": "expr_guard (coq/Lang/ToC.v, extracted): // and % on any numeric operands (int, bool, float, any signs; Python defines the value, so the divisor is not 0), / with a float operand, ** never translated (rejected), shift counts 0..31, and/or on bool operands only, both branches of a conditional / both arguments of min/max of the same kind (int-like or float or str), str()/f-string of int or str only (no bool, no float), no literal+literal / literal-compare, int(<str>) only of a String object or a single literal, len() of ASCII text, every int result within 32 bit, names bound to scalars; harness adds: float values small dyadics (binary rounding unmodelled)",
+        "guard": "expr_guard (coq/Lang/ToC.v, extracted): // and % on any numeric operands (int, bool, float, any signs; Python defines the value, so the divisor is not 0), / with a float operand, ** never translated (rejected), shift counts 0..31, and/or on bool operands only, both branches of a conditional / both arguments of min/max of the same kind (int-like or float or str), str()/f-string of int or str only (no bool, no float), no literal-compare (literal + literal is inside the guard since the repair: the emitter wraps the left operand as String(...)), int(<str>) of a String object, a literal or a choice between literals, len() of ASCII text, every int result within 32 bit, names bound to scalars; harness adds: float values small dyadics (binary rounding unmodelled)",
         "unmodelled": ["list literals, subscripts, comprehensions, method calls (device getters, list methods), user function calls: to_c answers NotModelled (counted in distribution.text_tie.not_modelled)",
                        "16-bit int of AVR (fits is 32 bit, the width of the g++/mock build)", "binary rounding of float/double (exact rationals; generated floats are dyadic)",
                        "float constants whose str() is not a short positional decimal (exponent form, 0.1)", "String.toFloat, String + number, non-printable pin strings",
@@ -632,6 +659,10 @@ SPECIAL_TEXT = [
     "[i for i in range(3)]", "x.append(1)", "mon.read()", "int(-s)", "int(not s)", "float(s+s)", "int(s*2)", "int(str(a))",
     "int(len(s))", "int(abs(f))", "float(min(a,f))", "123456789.5", "0.0001220703125", "65536.0", "4.76837158203125e-07", "1.0e3",
     "digital_read(pin=a+1)", 'analog_read("A0", 3)', "pin_mode(3, 1)", "a if b else (s if t else 'x')", "+t", "-t", "a ** b",
+    '"a" + "b"', '("a" if t else "b") + "c"', '"x" + ("a" if t else "b")', '"x" + "y" + "z"', '"x" + ("y" + "z")', 'f"lit" + "z"',
+    '"a" + s', 's + "a"', '("a" if t else s) + "c"', '"a" - "b"', '"a" * 2', 'int("12" if t else "13")', 'float("1.5" if t else "2.5")',
+    'int(f"12")', 'float("1.5")', 'int("1" if t else ("2" if a else "3"))', 'int("1" if t else s)', 'int(("1" if t else "2") + "0")',
+    'len("a" + "b")', 'str("a" + "b")', '("a" + "b") == s', 'min("a", "b") + "c"',
     "max(a, b, f, 3)", "min(a, b)", "abs(a, b)", "bool()", "len()", "int(a, 2)", "float('1.5')", "str(s)", "f'{s}{s}'", "f'{f}'",
     "(a)", "((a))", "a+b*3", "a-(b-3)", "(a-b)-3", "a<b", "a<=b", "not (a<b)", "-(a+b)", "a%b", "a//b", "a/b", "a<<2", "a>>b", "a&b|3^t",
 ]
